@@ -218,6 +218,17 @@ func visitInline(fw *formatWriter, source []byte, cursor *commonmark.Cursor) boo
 	case commonmark.LinkKind:
 		fw.s("[")
 		return true
+	case commonmark.ImageKind:
+		fw.s("![")
+		return true
+	case commonmark.EmphasisKind, commonmark.StrongKind:
+		// Copying the whole span would bring along the container markers
+		// of the source lines it continues on.
+		fw.b(spanSlice(source, child.Span())[:emphasisDelimiterLength(child)])
+		return true
+	case commonmark.CodeSpanKind, commonmark.HTMLTagKind:
+		copyLines(fw, source, child)
+		return false
 	case commonmark.TextKind:
 		if cursor.ParentBlock().Kind().IsCode() {
 			fw.b(spanSlice(source, child.Span()))
@@ -299,10 +310,52 @@ func nextSiblingKind(cursor *commonmark.Cursor) commonmark.InlineKind {
 	return parent.Child(i).Inline().Kind()
 }
 
+// emphasisDelimiterLength returns the length of the delimiters
+// on either side of an emphasis or strong emphasis node.
+func emphasisDelimiterLength(inline *commonmark.Inline) int {
+	if inline.Kind() == commonmark.StrongKind {
+		return 2
+	}
+	return 1
+}
+
+// copyLines writes the source of a code span or raw HTML tag,
+// which may continue over several lines,
+// without the container markers and indentation that precede its lines in the source.
+// (The writer adds those of the output.)
+func copyLines(fw *formatWriter, source []byte, inline *commonmark.Inline) {
+	span := inline.Span()
+	pos := span.Start
+	atLineStart := func() bool {
+		return pos > span.Start && source[pos-1] == '\n'
+	}
+	for i, n := 0, inline.ChildCount(); i < n; i++ {
+		// The children are the content of each line.
+		childSpan := inline.Child(i).Span()
+		if !childSpan.IsValid() || childSpan.Start < pos {
+			continue
+		}
+		if !atLineStart() {
+			fw.b(source[pos:childSpan.Start])
+		}
+		fw.b(source[childSpan.Start:childSpan.End])
+		pos = childSpan.End
+	}
+	rest := source[pos:span.End]
+	if atLineStart() {
+		// A closing delimiter on a line of its own.
+		rest = bytes.TrimLeft(rest, " \t>")
+	}
+	fw.b(rest)
+}
+
 func postInline(fw *formatWriter, source []byte, cursor *commonmark.Cursor) {
 	child := cursor.Node().Inline()
 	switch child.Kind() {
-	case commonmark.LinkKind:
+	case commonmark.EmphasisKind, commonmark.StrongKind:
+		s := spanSlice(source, child.Span())
+		fw.b(s[len(s)-emphasisDelimiterLength(child):])
+	case commonmark.LinkKind, commonmark.ImageKind:
 		fw.s("]")
 		if ref := child.LinkReference(); ref != "" {
 			if isShortcutLinkOrImage(child) && !needsEscapes(source, child) {
